@@ -146,7 +146,7 @@ def _numerals(model: Model, rep: Report) -> None:
     """C17-R5: the numeral formatters' tables and digit cases."""
     from ..norm import NotPolynomial, Poly, SymEval
 
-    r5 = rep.rule("C17-R5", "TABLE", "roman numerals: digit tables i/x/c/m and v/l/d, digit 9 = one + next one, 4 = one + five, 5..8 = five + ones, decimal digits from the right; letters: bijective base 26 (a..z, aa..)", 6)
+    r5 = rep.rule("C17-R5", "TABLE", "roman numerals: digit tables i/x/c/m and v/l/d, digit 9 = one + next one, 4 = one + five, 5..8 = five + ones, decimal digits from the right; letters: as written today (a base-26 numeral) and as Table 159 has them (one letter repeated)", 7)
     um = model.module("pdfminer.utils")
     try:
         ones = ast.literal_eval(um.assigns["ROMAN_ONES"])
@@ -167,6 +167,11 @@ def _numerals(model: Model, rep: Report) -> None:
     fa = model.func("pdfminer.utils.format_int_alpha")
     s2 = "".join(unparse(fa.node).split())
     r5.check("value,remainder=divmod(value-1,len(string.ascii_lowercase))" in s2.replace("(value,remainder)", "value,remainder") and "result.append(string.ascii_lowercase[remainder])" in s2 and "result.reverse()" in s2, site(fa), fa.qualname, "letters: repeated divmod(value - 1, 26), least significant letter first, reversed at the end", why="changed")
+    # Table 159: "A to Z for the first 26 pages, AA to ZZ for the next 26, and so on" - the letter of (n - 1) mod 26, written
+    # (n - 1) div 26 + 1 times.  A positional base-26 numeral (aa, ab, ac ...) agrees with that for the first 27 labels only.
+    has_numeral_loop = any(isinstance(n, ast.While) for n in walk_no_nested(fa.node)) and "divmod(" in s2
+    repeats = any(isinstance(n, ast.BinOp) and isinstance(n.op, ast.Mult) for n in walk_no_nested(fa.node))
+    r5.check(repeats and not has_numeral_loop, site(fa), fa.qualname, "letters: label n is one letter, (n - 1) mod 26, repeated (n - 1) div 26 + 1 times (ISO 32000-1 Table 159)", why="format_int_alpha writes a bijective base-26 numeral: label 28 is 'ab' where Table 159 has 'bb' (aa, bb, cc ... zz, aaa ...): every /A or /a label from the 28th on differs from what a viewer shows")
 
 
 def _round8(model: Model, rep: Report) -> None:
